@@ -194,6 +194,11 @@ def run_history(mod, descs, ops, res):
             n = sum(1 for a in active if a["fi"] == fi)
             st = getattr(t, "__ptera_stack__", None)
             ic = st.instrument_count if st else 0
+            if descs[fi]["kind"] == "tooled-decorator":
+                # a fully tooled function is left as it is by probes: no variants, no counts
+                if st is not None or t.__code__ is not orig[fi]:
+                    problems.append({"after": where, "problem": f"{descs[fi]['target']}: a fully tooled function got a variant stack / another code object"})
+                continue
             if ic != n:
                 problems.append({"after": where, "problem": f"{descs[fi]['target']}: instrument_count {ic}, {n} active probe(s)"})
             if (t.__code__ is orig[fi]) != (n == 0):
